@@ -404,11 +404,29 @@ func (c *core) fastForward(block *hg.Block, frame *hg.Frame) error {
 		return err
 	}
 
-	// Update peer-selector and validators
+	// Update peer-selector and validators. The validators are the latest
+	// validator-set recorded in the frame's peer-set history, which may already
+	// contain a change that only becomes effective after the frame's round;
+	// later changes are applied on top of that set, as on the nodes that did
+	// not fast-forward.
 	c.setPeers(peers.NewPeerSet(frame.Peers))
-	c.validators = peers.NewPeerSet(frame.Peers)
+	c.validators = latestPeerSet(frame)
 
 	return nil
+}
+
+// latestPeerSet returns the peer-set with the highest round in the frame's
+// peer-set history, or the frame's own peer-set if the history is empty.
+func latestPeerSet(frame *hg.Frame) *peers.PeerSet {
+	latestRound := -1
+	latest := frame.Peers
+	for round, ps := range frame.PeerSets {
+		if round > latestRound {
+			latestRound = round
+			latest = ps
+		}
+	}
+	return peers.NewPeerSet(latest)
 }
 
 // signedByKnownPeer returns true if the block carries a valid signature from a
